@@ -854,3 +854,87 @@ Theorem c04_byte_bam_ops_via_bai_file :
             = map (op_answer dec bodies U) ops.
 Proof. exact byte_bam_ops_via_bai_file. Qed.
 Print Assumptions c04_byte_bam_ops_via_bai_file.
+
+(* ==== tenth deepening: the BCF RECORD FRAMING over bytes for the query path.  Model:
+   NV.Index.BcfByteQuery (bcf/io/reader/record.rs read_record -- l_shared word through
+   read_exact_or_eof, l_indiv word through read_exact, site through take().read_to_end,
+   Fields::index (C10's lz_index), samples -- over the bgzf reader and over csi::io::Query, which is
+   what bcf::io::Reader::query reads from; bcf/fs/index.rs's scan loop); proofs in
+   NV.Index.BcfByteQueryProofs / BcfByteSessionProofs.  A record is carried as everything behind its
+   l_shared word (l_indiv word ++ site ++ samples); bstream lays records out as
+   l_shared word ++ that.  Executed as kind `bcfb`. ==== *)
+From NV Require Index.BcfByteQuery Index.BcfByteQueryProofs Index.BcfByteSessionProofs.
+
+(* the indexer's scan over the bytes of a BCF file, from any reader state of C02's invariant
+   standing where the records begin, for every read_to_end buffer schedule: exactly the records of
+   the stream, with the positions told before / after each one on their flat offsets *)
+Theorem c04_bcf_byte_scan : forall f bsz st o bodies, wf f -> total_csize f <= MAX_COMPRESSED_POSITION ->
+  Rel f st o ->
+  skipn (N.to_nat o) (concat (chunks f)) = NV.Index.BcfByteQueryProofs.bstream bodies ->
+  Forall NV.Index.BcfByteQueryProofs.brec_ok bodies ->
+  exists st' a L, virtual_position st = Ok a /\
+    NV.Index.BcfByteQuery.bcf_scan_from bsz f st = (st', Ok L) /\
+    map br_body L = bodies /\ NV.Index.BcfByteQueryProofs.blaid f o a L /\ Rel f st' (total_dlen f).
+Proof. exact NV.Index.BcfByteQueryProofs.bcf_byte_scan_spec. Qed.
+Print Assumptions c04_bcf_byte_scan.
+
+(* record framing on the query path: seeking to a chunk start and reading to the chunk end with
+   csi::io::Query + the BCF record reader, for chunks on record boundaries in ANY order, overlapping
+   or repeated, from ANY reader state: chunk by chunk exactly the records of the stream whose start
+   position lies in the chunk (chunk_read_f, the abstract reading of the format-level theorems) *)
+Theorem c04_bcf_byte_query_reads_chunks : forall f bsz, wf f -> total_csize f <= MAX_COMPRESSED_POSITION ->
+  forall L o0 a0, NV.Index.BcfByteQueryProofs.blaid f o0 a0 L ->
+  skipn (N.to_nat o0) (concat (chunks f)) = NV.Index.BcfByteQueryProofs.bstream (map br_body L) ->
+  forall cs st o, Forall (NV.Index.BcfByteQueryProofs.baligned L) cs -> Rel f st o ->
+  exists st' o', Rel f st' o' /\
+    NV.Index.BcfByteQuery.bcf_byte_query bsz f st cs
+    = (st', Ok (map br_body (chunk_read_f brec br_a cs L))).
+Proof. exact NV.Index.BcfByteQueryProofs.bcf_byte_query_spec. Qed.
+Print Assumptions c04_bcf_byte_query_reads_chunks.
+
+(* the executed session in closed form: header bytes, scan, then any number of chunk-list queries
+   one after the other on the same reader object *)
+Theorem c04_bcf_byte_session : forall f bsz hl bodies, wf f ->
+  total_csize f <= MAX_COMPRESSED_POSITION -> hl <= total_dlen f ->
+  skipn (N.to_nat hl) (concat (chunks f)) = NV.Index.BcfByteQueryProofs.bstream bodies ->
+  Forall NV.Index.BcfByteQueryProofs.brec_ok bodies ->
+  exists a L, map br_body L = bodies /\ NV.Index.BcfByteQueryProofs.blaid f hl a L /\
+    forall qs, Forall (Forall (NV.Index.BcfByteQueryProofs.baligned L)) qs ->
+      NV.Index.BcfByteQuery.bcf_byte_session bsz f hl qs
+      = (Ok L, map (fun cs => Ok (map br_body (chunk_read_f brec br_a cs L))) qs).
+Proof. exact NV.Index.BcfByteSessionProofs.bcf_byte_session_spec. Qed.
+Print Assumptions c04_bcf_byte_session.
+
+(* non-vacuity: a 3-byte header and two records without samples (site: the 24 fixed bytes, an empty
+   ID string, REF "A", no filters), the first cut after 10 of its bytes by a block boundary with an
+   EMPTY block between; scan, then three queries on the same reader *)
+Definition c04_bcf_site : list N :=
+  [0;0;0;0; 9;0;0;0; 1;0;0;0; 1;0;128;127; 0;0; 1;0; 0;0;0; 0; 7; 23;65; 0].
+Definition c04_bcf_body : list N := [0;0;0;0] ++ c04_bcf_site.
+Definition c04_bcf_file : file :=
+  [mkFrame 40 ([1;2;3] ++ [28;0;0;0] ++ firstn 6 c04_bcf_body); mkFrame 28 [];
+   mkFrame 50 (skipn 6 c04_bcf_body ++ [28;0;0;0] ++ c04_bcf_body); mkFrame 28 []].
+Example c04_bcf_byte_example :
+  NV.Index.BcfByteQuery.bcf_byte_session_x c04_bcf_file 3
+    [[(pack 0 3, pack 68 26)]; [(pack 68 26, pack 118 0)]; []]
+  = (Ok [mkbrec c04_bcf_body 3 4456474; mkbrec c04_bcf_body 4456474 7733248],
+     [Ok [c04_bcf_body]; Ok [c04_bcf_body]; Ok []]).
+Proof. vm_compute. reflexivity. Qed.
+
+(* the one-record framing lemma behind the three theorems above, for ANY byte reader rd that hands
+   out the data D piecewise (the plain bgzf reader, csi::io::Query inside a chunk): from offset o
+   where the data continues with a record's l_shared word ++ body, read_record returns exactly that
+   body and leaves the reader at the record's end, having just consumed its last byte *)
+Theorem c04_bcf_record_framing :
+  forall (R : Type) (rd : R -> N -> R * res (list N)) (bsz : N -> N) (D : list N)
+         (GRel GJC : R -> N -> Prop) (lim : N),
+    (forall r o n, GRel r o -> o < lim -> o < len D -> 0 < n ->
+       exists r' k, rd r n = (r', Ok (slice D o k)) /\ 1 <= k /\ k <= n /\ o + k <= len D /\
+         GRel r' (o + k) /\ GJC r' (o + k)) ->
+    forall r o b tl, GRel r o ->
+      skipn (N.to_nat o) D = NV.Index.BcfByteQueryProofs.bframed b ++ tl ->
+      NV.Index.BcfByteQueryProofs.brec_ok b -> o + 4 + len b <= lim ->
+      exists r', NV.Index.BcfByteQuery.bcf_read_record R rd bsz r = (r', RRec b) /\
+                 GRel r' (o + 4 + len b) /\ GJC r' (o + 4 + len b).
+Proof. exact NV.Index.BcfByteQueryProofs.gen_read_record. Qed.
+Print Assumptions c04_bcf_record_framing.
